@@ -248,63 +248,81 @@ def _r18c(chk, repo, counts) -> None:
 
 
 def _r18b(chk, repo) -> None:
+    """The rollback return of the fix loop, found by role: a ``return`` of lint_fix_parsed, inside a loop
+    (or a loop's ``else``), whose tree component is a name that derives from the tree parameter and is
+    never (re)bound inside any loop -- the tree as it was before the first pass.  Both spellings of
+    "the pass budget is used up" are accepted: ``for .. else`` and an explicit limit test in the loop."""
     f = repo.fn(LINTER, "Linter.lint_fix_parsed")
     cfg = cfg_of(f)
     params = [a.arg for a in f.args.args]
+    tree_param = params[1 if params[0] in ("cls", "self") else 0]
+    loops = [n for n in walk_local(f) if isinstance(n, (ast.For, ast.While))]
     found = 0
-    for loop in walk_local(f):
-        if not (isinstance(loop, ast.For) and loop.orelse):
+    for r in [n for n in walk_local(f) if isinstance(n, ast.Return) and n.value is not None]:
+        encl = [lp for lp in loops if _inside(r, lp)]
+        if not encl:
             continue
-        rets = [n for s in loop.orelse for n in [s] + list(walk_local(s)) if isinstance(n, ast.Return)]
-        if not rets:
+        elts = r.value.elts if isinstance(r.value, ast.Tuple) else [r.value]
+        t0 = elts[0] if elts else None
+        if not isinstance(t0, ast.Name):
             continue
+        os_ = origins(cfg, t0, r)
+        from_param = bool(os_) and all(o.kind == "param" and getattr(o.expr, "arg", "") == tree_param for o in os_)
+        ds = cfg.reaching().defs_at(r, t0.id)
+        rebound_in_loop = [d for d in ds if d.stmt is not None and any(_inside(d.stmt, lp) for lp in loops)]
+        in_else = any(_inside_stmts(r, lp.orelse) for lp in encl if lp.orelse)
+        if not in_else and not (from_param and not rebound_in_loop):
+            continue  # an ordinary return of the working tree, not the rollback
         found += 1
-        for r in rets:
-            ok_tree = False
-            elts = r.value.elts if isinstance(r.value, ast.Tuple) else [r.value]
-            t0 = elts[0] if elts else None
-            why = "returned tree does not derive from the tree parameter as it was before the loop"
-            if isinstance(t0, ast.Name):
-                os_ = origins(cfg, t0, r)
-                if os_ and all(o.kind == "param" and getattr(o.expr, "arg", "") == params[1 if params[0] in ("cls", "self") else 0] for o in os_):
-                    # every reaching def of the returned name must be outside (before) the loops
-                    ds = cfg.reaching().defs_at(r, t0.id)
-                    inside = [d for d in ds if d.stmt is not None and _inside(d.stmt, loop)]
-                    outer = loop
-                    p = getattr(loop, "_parent", None)
-                    while p is not None and p is not f:
-                        if isinstance(p, (ast.For, ast.While)):
-                            outer = p
-                        p = getattr(p, "_parent", None)
-                    inside_outer = [d for d in ds if d.stmt is not None and _inside(d.stmt, outer)]
-                    if not inside and not inside_outer:
-                        ok_tree = True
-                    else:
-                        why = "the returned name is (re)assigned inside the fix loop"
-            chk.require(ok_tree, "R18b", r, f"loop-limit exit: {why}", detail="loop-limit returns saved tree")
-            # fixes cleared before the return, for every lint error of the returned list
-            errs = elts[1] if len(elts) > 1 else None
-            cleared = False
-            for s in walk_local(loop):
-                pass
-            blk = _block_of(r)
-            for s in blk:
-                if s is r:
-                    break
-                if isinstance(s, ast.For) and errs is not None and norm(s.iter) == norm(errs):
-                    for n in walk_local(s):
-                        if isinstance(n, ast.Assign) and isinstance(n.targets[0], ast.Attribute) and n.targets[0].attr == "fixes" \
-                                and isinstance(n.value, (ast.List, ast.Tuple)) and not n.value.elts \
-                                and isinstance(n.targets[0].value, ast.Name) and n.targets[0].value.id in {x.id for x in ast.walk(s.target) if isinstance(x, ast.Name)}:
-                            conds = [c for c in cfg.conditions(n) if _inside(cfg.stmt_of(c[0]) or s, s)]
-                            extra = [norm(e) for e, pol in conds if not (pol and isinstance(e, ast.Call) and last_attr(e) == "isinstance" and norm(e.args[1]) == "SQLLintError")]
-                            if not extra:
-                                cleared = True
-            chk.require(cleared, "R18b", r, "loop-limit exit: fixes of the initial lint errors are not all cleared before returning", detail="loop-limit clears fixes")
-            # the exhaustion arm must only be conditioned on fix mode
-            conds = [(e, pol) for e, pol in cfg.conditions(r) if _inside_stmts(e, loop.orelse)]
-            extra = [norm(e) for e, pol in conds if not (pol and isinstance(e, ast.Name) and any(o.kind == "param" for o in origins(cfg, e, r)))]
-            chk.require(not extra, "R18b", r, f"loop-limit rollback is conditioned on more than fix mode: {extra}", detail="loop-limit arm unconditional")
+        chk.require(
+            from_param and not rebound_in_loop, "R18b", r,
+            "loop-limit exit: " + ("the returned name is (re)assigned inside the fix loop" if from_param else "returned tree does not derive from the tree parameter as it was before the loop"),
+            detail="loop-limit returns saved tree",
+        )
+        # fixes cleared before the return, for every lint error of the returned list
+        errs = elts[1] if len(elts) > 1 else None
+        cleared = False
+        blk = _block_of(r)
+        for s_ in blk:
+            if s_ is r:
+                break
+            if isinstance(s_, ast.For) and errs is not None and norm(s_.iter) == norm(errs):
+                for n in walk_local(s_):
+                    if isinstance(n, ast.Assign) and isinstance(n.targets[0], ast.Attribute) and n.targets[0].attr == "fixes" \
+                            and isinstance(n.value, (ast.List, ast.Tuple)) and not n.value.elts \
+                            and isinstance(n.targets[0].value, ast.Name) and n.targets[0].value.id in {x.id for x in ast.walk(s_.target) if isinstance(x, ast.Name)}:
+                        conds = [c for c in cfg.conditions(n) if _inside(cfg.stmt_of(c[0]) or s_, s_)]
+                        extra = [norm(e) for e, pol in conds if not (pol and isinstance(e, ast.Call) and last_attr(e) == "isinstance" and norm(e.args[1]) == "SQLLintError")]
+                        if not extra:
+                            cleared = True
+        chk.require(cleared, "R18b", r, "loop-limit exit: fixes of the initial lint errors are not all cleared before returning", detail="loop-limit clears fixes")
+        # the exhaustion arm must only be conditioned on fix mode (and, in the explicit form, on the pass budget)
+        outer = encl[0]
+        for lp in encl:
+            if _inside(outer, lp):
+                outer = lp
+        shared = {(norm(e), pol) for e, pol in cfg.conditions(outer)}
+
+        def is_budget_test(e) -> bool:
+            if not isinstance(e, ast.Compare):
+                return False
+            for x in ast.walk(e):
+                if isinstance(x, ast.Name):
+                    for o in origins(cfg, x, r):
+                        if o.kind == "expr" and any(isinstance(c, ast.Constant) and c.value == "runaway_limit" for c in ast.walk(o.expr)):
+                            return True
+            return False
+
+        extra = []
+        for e, pol in cfg.conditions(r):
+            if (norm(e), pol) in shared:
+                continue
+            if pol and isinstance(e, ast.Name) and any(o.kind == "param" for o in origins(cfg, e, r)):
+                continue
+            if is_budget_test(e):
+                continue
+            extra.append(norm(e))
+        chk.require(not extra, "R18b", r, f"loop-limit rollback is conditioned on more than fix mode: {extra}", detail="loop-limit arm unconditional")
     chk.require(found >= 1, "R18b", f, "no for/else exhaustion arm with a return found in the fix loop: loop-limit rollback missing", detail="loop-limit arm present")
 
 
